@@ -17,8 +17,9 @@ the to-archive path: 1 = archive put, 2 = policy put; on the from-archive path t
 first writes the backup's archive), the single-fault convention of DESIGN section 4; 0 = no fault.  `Persist`'s
 deferred rollback restores exactly what the Go code restores (`ArchiveVersion`, `ArchiveMinVersion` — added by the
 repair of finding F38 — and `Keys`).  Storage is transactional (as the raft and in-memory backends are): rotate,
-config and trim run inside `StartTxStorage`, so the writes of a failed request are rolled back; create, backup and
-restore open no transaction (the latter is finding F39).
+config, trim and (since the repair of F39) restore run inside `StartTxStorage`, so the writes of a failed request
+are rolled back; create and backup open no transaction; `restoreRaw` is the bare library call of `RestorePolicy`
+outside a transaction, whose two `Put`s are not atomic.
 -/
 namespace Obao.Transit
 
@@ -367,20 +368,27 @@ def backup (st : St) : St × Out :=
     | .fail cls q a => ({ st0 with pol := some q, archive := a }, .err cls)
     | .panic => (st0, .panic)
 
-/-- `LockManager.RestorePolicy` (same name) -/
-def restore (st : St) (b : Nat) (force : Bool) : St × Out :=
+/-- `LockManager.RestorePolicy` (same name), parameterised by whether the caller runs it inside a storage
+    transaction: `storeArchive(backup archive)` is put 1, then `Persist` (archive put 2, policy put 3).  In a
+    transaction nothing a failed call wrote survives; without one the archive written before the failure stays. -/
+def restoreWith (tx : Bool) (st : St) (b : Nat) (force : Bool) : St × Out :=
   let st0 := { st with failPut := 0 }
   if b = 0 then (st0, .badOp) else
   match st.backups[b - 1]? with
   | none => (st0, .badOp)
   | some (bp, ba) =>
     if st.pol.isSome ∧ !force then (st0, .err "exists") else
-    -- storeArchive(backup archive) is put 1, then Persist (archive put 2, policy put 3)
     if st.failPut = 1 then (st0, .err "persist:put") else
     match persist bp ba (st.failPut - 1) with
     | .ok p' a => ({ st0 with pol := some p', archive := a }, polOut p')
-    | .fail cls _ a => ({ st0 with archive := a }, .err cls)
+    | .fail cls _ a => (if tx then st0 else { st0 with archive := a }, .err cls)
     | .panic => (st0, .panic)
+
+/-- the `restore` endpoint: `pathRestoreUpdate` runs `RestorePolicy` inside `StartTxStorage` (repair of F39) -/
+def restore (st : St) (b : Nat) (force : Bool) : St × Out := restoreWith true st b force
+
+/-- harness-only: the bare library call `LockManager.RestorePolicy` on a storage handle that is not a transaction -/
+def restoreRaw (st : St) (b : Nat) (force : Bool) : St × Out := restoreWith false st b force
 
 /-- `LockManager.DeletePolicy` -/
 def delete (st : St) : St × Out :=
@@ -671,6 +679,8 @@ inductive Op where
   | failPut (k : Nat)
   /-- harness-only: assign the minimum versions without the endpoint guards -/
   | rawConfig (dec enc : Nat)
+  /-- harness-only: `RestorePolicy` called outside any storage transaction -/
+  | restoreRaw (b : Nat) (force : Bool)
   deriving Repr
 
 def step (st : St) : Op → St × Out
@@ -690,6 +700,7 @@ def step (st : St) : Op → St × Out
   | .hmacVerify h vm bm m => hmacVerify st h vm bm m
   | .failPut k => ({ st with failPut := k }, .okUnit)
   | .rawConfig d e => rawConfig st d e
+  | .restoreRaw b f => restoreRaw st b f
 
 def run (st : St) : List Op → St
   | [] => st
@@ -699,13 +710,13 @@ def run (st : St) : List Op → St
     harness-only operations — a planned storage fault and the unguarded assignment of the minimum versions — are
     excluded -/
 def Op.faultFree : Op → Bool
-  | .failPut _ | .rawConfig _ _ => false
+  | .failPut _ | .rawConfig _ _ | .restoreRaw _ _ => false
   | _ => true
 
 /-- an operation that keeps the identity of the key ring: everything except creating, restoring or deleting the
     key (and planning a fault) -/
 def Op.keepsRing : Op → Bool
-  | .new _ _ _ | .restore _ _ | .delete | .failPut _ | .rawConfig _ _ => false
+  | .new _ _ _ | .restore _ _ | .delete | .failPut _ | .rawConfig _ _ | .restoreRaw _ _ => false
   | _ => true
 
 /-- the endpoint operations whose handler runs inside `logical.StartTxStorage` -/
@@ -729,17 +740,27 @@ def txFaults : Bool → List Op → Bool
     else if o.readOnly then txFaults pending os
     else o.keepsRing && !pending && txFaults false os
 
-/-- ring-keeping operations, fault plans, and restores -/
+/-- ring-keeping endpoint operations, fault plans, and restores through the endpoint -/
 def Op.keepsRingOrFaultOrRestore : Op → Bool
   | .failPut _ | .restore _ _ => true
   | o => o.keepsRing
 
-/-- every `restore` of the history fails (so the key ring is never legitimately replaced) -/
+/-- as above, plus the bare library call of `RestorePolicy` -/
+def Op.keepsRingOrFaultOrAnyRestore : Op → Bool
+  | .restoreRaw _ _ => true
+  | o => o.keepsRingOrFaultOrRestore
+
+def Op.isRestore : Op → Bool
+  | .restore _ _ | .restoreRaw _ _ => true
+  | _ => false
+
+def Out.isErr : Out → Bool
+  | .err _ => true
+  | _ => false
+
+/-- every restore of the history fails (so the key ring is never legitimately replaced) -/
 def restoresFail : St → List Op → Bool
   | _, [] => true
-  | st, o :: os =>
-    (match o with
-     | .restore _ _ => (match (step st o).2 with | .err _ => true | _ => false)
-     | _ => true) && restoresFail (step st o).1 os
+  | st, o :: os => (!o.isRestore || (step st o).2.isErr) && restoresFail (step st o).1 os
 
 end Obao.Transit
